@@ -319,7 +319,7 @@ func (r *run) step(s drv.Step) (res string, extra map[string]any) {
 		panic(err)
 	}
 	e := r.w.e
-	extra = map[string]any{"fired": false, "id": 0, "calls": 0}
+	extra = map[string]any{"fired": false, "id": 0, "calls": 0, "known": false}
 	msg := func(f func(ctx sdk.Context) error, k int) string {
 		flt := e.Arm(k)
 		err, _ := env.RunMsg(r.ctx, f)
@@ -473,6 +473,7 @@ func (r *run) step(s drv.Step) (res string, extra map[string]any) {
 	case "Evidence":
 		v := e.Vals[a.V-1]
 		ext, ok := r.lastSeen[a.N]
+		extra["known"] = ok
 		if !ok {
 			// a batch that never existed: fabricate one (a genuinely forged subject)
 			ext = st.OutgoingTxBatch{BatchNonce: uint64(a.N), BatchTimeout: 12345, TokenContract: r.w.tokens[0].contract, ChainReferenceId: r.w.tokens[0].chain,
